@@ -84,6 +84,36 @@ func thorough(w *World, prop, repo, verif string) int {
 	}
 	fmt.Printf("%s thorough: self-test %d mutants, %d detected, %d skipped\n", prop, len(patches), nDet, nSkip)
 
+	// ---- 1b. behaviour-preserving variants: the refactorings under /verif/refactorings (helper
+	// extraction, early returns, if→switch, code moved between files; each passes the test suite)
+	// applied to a scratch copy must leave the rules silent.
+	refs, _ := filepath.Glob(filepath.Join(verif, "refactorings", "*.diff"))
+	sort.Strings(refs)
+	rres := make([]mutantResult, len(refs))
+	for i, p := range refs {
+		wg.Add(1)
+		go func(i int, p string) {
+			defer wg.Done()
+			sem <- struct{}{}
+			defer func() { <-sem }()
+			rres[i] = runVariantPatch(self, prop, repo, verif, p)
+		}(i, p)
+	}
+	wg.Wait()
+	nSilent, nRSkip := 0, 0
+	for _, res := range rres {
+		switch res.status {
+		case "silent":
+			nSilent++
+		case "skipped":
+			nRSkip++
+		default:
+			fmt.Fprintf(os.Stderr, "CHECKER-SELF-TEST-FAILED property=%s refactoring=%s: %s %s\n", prop, res.name, res.status, res.detail)
+			status = 2
+		}
+	}
+	fmt.Printf("%s thorough: %d behaviour-preserving variants, %d silent, %d skipped (no longer apply)\n", prop, len(refs), nSilent, nRSkip)
+
 	// ---- 2. other build configurations
 	for _, cfg := range [][2]string{{"", "386"}, {"verif", ""}} {
 		st := runVariant(self, prop, repo, verif, cfg[0], cfg[1])
@@ -123,6 +153,7 @@ func thorough(w *World, prop, repo, verif string) int {
 				}
 				cov["selftest"] = map[string]interface{}{"mutants": len(patches), "detected": nDet, "skipped": nSkip, "results": names}
 				cov["variants"] = []string{"GOARCH=386", "-tags verif"}
+				cov["behaviour_preserving_variants"] = map[string]interface{}{"total": len(refs), "silent": nSilent, "skipped": nRSkip}
 				nb, _ := json.MarshalIndent(ev, "", " ")
 				os.WriteFile(evPath, append(nb, '\n'), 0o644)
 			}
@@ -179,6 +210,42 @@ func runMutant(self, prop, repo, verif, patch string) mutantResult {
 		}
 		return mutantResult{name, "broken", "checker exit " + fmt.Sprint(code) + ": " + firstLine(string(out))}
 	}
+}
+
+// runVariantPatch: the rules must stay silent on a behaviour-preserving variant.
+func runVariantPatch(self, prop, repo, verif, patch string) mutantResult {
+	name := filepath.Base(patch)
+	d, err := scratchCopy(repo)
+	if err != nil {
+		return mutantResult{name, "broken", err.Error()}
+	}
+	defer os.RemoveAll(d)
+	cmd := exec.Command("patch", "-p1", "-s", "--no-backup-if-mismatch", "-i", patch)
+	cmd.Dir = d
+	if out, err := cmd.CombinedOutput(); err != nil {
+		return mutantResult{name, "skipped", firstLine(string(out))}
+	}
+	cmd = exec.Command(self, "-prop", prop, "-tier", "quick", "-repo", d, "-verif", verif, "-no-evidence")
+	cmd.Env = append(os.Environ(), "GOCACHE="+filepath.Join(d, ".gocache"))
+	out, err := cmd.CombinedOutput()
+	if err == nil {
+		return mutantResult{name, "silent", ""}
+	}
+	if ee, ok := err.(*exec.ExitError); ok {
+		if strings.Contains(string(out), "load/type errors") || strings.Contains(string(out), "load error") {
+			return mutantResult{name, "skipped", "variant does not type-check on the current tree"}
+		}
+		return mutantResult{name, "false-alarm", fmt.Sprintf("exit %d: %s", ee.ExitCode(), firstLine(lastLines(string(out), 3)))}
+	}
+	return mutantResult{name, "broken", err.Error()}
+}
+
+func lastLines(s string, n int) string {
+	ls := strings.Split(strings.TrimSpace(s), "\n")
+	if len(ls) > n {
+		ls = ls[len(ls)-n:]
+	}
+	return strings.Join(ls, "\n")
 }
 
 func runVariant(self, prop, repo, verif, tags, goarch string) int {
